@@ -316,6 +316,16 @@ pub fn run(ctx: &mut Ctx) {
                 ids.push(b.wrapping_add_signed(d));
             }
         }
+        // the same edges walked DOWNWARDS, and jumps between distant zooms (call-to-call state must not matter)
+        for z in (0..=32u8).rev() {
+            let b = R::zoom_base(z);
+            for d in [2i64, 1, 0, -1, -2] {
+                ids.push(b.wrapping_add_signed(d));
+            }
+        }
+        for z in 1..=31u8 {
+            ids.extend([R::zoom_base(z) + 1, R::zoom_base(32 - z), R::zoom_base(z) - 1, R::zoom_base(z), 0]);
+        }
         for p in 0..64u32 {
             let v = 1u64 << p;
             ids.extend([v - 1, v, v.wrapping_add(1)]);
